@@ -28,6 +28,7 @@ CONSTANTS Objs,      \* ids used by Next (subset of Ids)
           BugH9,     \* TRUE: as-is (crash between metabase and blob step of deleteObjs leaves the blob)
           BugH10,    \* TRUE: as-is (setModeStorage short-circuits on the REPORTED mode)
           BugMetaStale, \* TRUE: as-is (DB.SetMode failure leaves a closed bolt under the old mode)
+          BugH11,    \* TRUE: DB.put re-indexes an already stored, garbage-marked object (before commit 1fde943); FALSE: no-op
           KRounds    \* C44 bounded form: GC passes after the last expiration epoch within which everything is gone
 
 Cat == << [typ |-> "REG",  c |-> 1, tgt |-> 0, exp |-> 0],
@@ -93,6 +94,7 @@ MetaPut(m, a, e, keep) ==
   IN IF m.cnr[c] = "dead" THEN [m |-> m, res |-> "removed"]
      ELSE IF ex = "true" THEN [m |-> m, res |-> "ok"]
      ELSE IF ex \in {"removed", "expired"} THEN [m |-> m, res |-> ex]
+     ELSE IF ~BugH11 /\ ex = "nf" /\ m.stored[a] THEN [m |-> m, res |-> "ok"]     \* garbage-marked but already indexed
      ELSE CASE Cat[a].typ = "REG"  -> [m |-> [mb EXCEPT !.stored[a] = TRUE], res |-> "ok"]
             [] Cat[a].typ = "TS"   ->
                  IF m.stored[t] /\ Cat[t].typ # "REG" THEN fail("err")
@@ -207,8 +209,9 @@ Exec(s, ms, ch) ==
          ELSE Push(s, << MS("delwc", ms.c, ms.ids, 0), MS("delmeta", ms.c, ms.ids, 0) >>)
     [] ms.k = "delwc" ->
          IF WcOn(s) THEN [s EXCEPT !.wc = [a \in Ids |-> IF a \in Range(ms.ids) THEN FALSE ELSE @[a]],
-                                   \* the only copy of a still-available object goes BEFORE its metabase record
-                                   !.kf15 = [a \in Ids |-> IF a \in Range(ms.ids) /\ s.wc[a] /\ ~s.blob[a] /\ MetaAvail(s, a)
+                                   \* the only copy of an object goes BEFORE its metabase record; until that record is deleted
+                                   \* it is (redundant copy, direct delete) or may become (expired, then locked) available
+                                   !.kf15 = [a \in Ids |-> IF a \in Range(ms.ids) /\ s.wc[a] /\ ~s.blob[a] /\ s.m.stored[a]
                                                             THEN "wcfirst" ELSE @[a]]]
          ELSE s
     [] ms.k = "delmeta" ->
